@@ -74,6 +74,9 @@ func Loop(r lineReader, p Parser, vm *vm.Type, doOut bool) {
 		open.scan(line)
 		input += sep + line
 		sep = "\n"
+		if strings.HasSuffix(line, "\n") { // file lines come with their line break
+			sep = ""
+		}
 
 		if open.blocks == 0 && !open.inString && open.brackets == 0 {
 			processInput(input, p, vm, doOut)
